@@ -250,6 +250,14 @@ func c19buildEnv() (*c19env, error) {
 		return ugo.Array{ugo.Array{ugo.Int(1), ugo.Map{"k": ugo.String("v")}}, ugo.Map{"a": ugo.Array{}}, ugo.Undefined}
 	})
 	mut("array:1000ints", "big", c19bigArray)
+	// arrays whose elements cannot be ordered / compared with each other (several failing comparisons in one call)
+	mut("array:3maps", "unorderable", func() ugo.Object { return ugo.Array{ugo.Map{}, ugo.Map{}, ugo.Map{"a": ugo.Int(1)}} })
+	mut("array:mixed-unorderable", "unorderable", func() ugo.Object {
+		return ugo.Array{ugo.Int(3), ugo.String("a"), ugo.Map{}, ugo.Undefined, ugo.Array{ugo.Int(1)}, &ugo.Error{Name: "E"}, ugo.Float(math.NaN()), ugo.Int(1)}
+	})
+	mut("array:4arrays", "unorderable", func() ugo.Object {
+		return ugo.Array{ugo.Array{ugo.Int(2)}, ugo.Array{ugo.Int(1)}, ugo.Array{}, ugo.Array{ugo.Int(3)}}
+	})
 	mut("map:{}", "empty", func() ugo.Object { return ugo.Map{} })
 	mut("map:{a:1}", "", func() ugo.Object { return ugo.Map{"a": ugo.Int(1)} })
 	mut("syncMap:{a:1}", "", func() ugo.Object { return &ugo.SyncMap{Value: ugo.Map{"a": ugo.Int(1)}} })
